@@ -203,7 +203,8 @@ def make_s_py_atomic(params, part, nparts):
 # Engine C: symbolic execution of the LLVM IR of the C lookup layer (vlib/irsym.py)
 # ---------------------------------------------------------------------------
 
-IR_ENTRY_TO_REENT = {'_lookup': [0, 6], '_lookup1': [1], '_adapter_hook': [2, 3], '_lookupAll': [4, 8], '_subscriptions': [5, 7]}
+IR_ENTRY_TO_REENT = {'_lookup': [0, 6], '_lookup1': [1], '_adapter_hook': [2, 3], '_lookupAll': [4, 8], '_subscriptions': [5, 7],
+                     '_verify': [0, 1, 4, 5], 'verify_changed': [0, 4]}
 IR_API_TO_POINT = {'PyObject_CallMethodObjArgs': [0, 1], 'PySequence_Tuple': [2], 'providedBy': [3], 'PyObject_CallFunctionObjArgs': [4],
                    'PyDict_GetItem': [5, 7, 8], 'PyDict_SetItem': [5, 7, 8], 'PyObject_IsTrue': [7], 'PyObject_GetAttr': [10]}
 
@@ -219,6 +220,8 @@ def ir_candidates(v):
     text = v.get('msg', '') + ' '.join(v.get('trace', []))
     if 'str__self__' in text:
         points.append(10)
+    if v['function'] in ('_verify', 'verify_changed'):
+        points = [12] + points
     if v['kind'] == 'reference-balance':
         points += [11, 9]
     if v['kind'] == 'stale-store':
@@ -254,7 +257,7 @@ def run_ir(tier, ctx):
     try:
         irfile = os.path.join(wd, 'zic.m2r.ll')
         funcs = irsym.parse(text)
-        missing = [f for f in list(irsym.TARGETS) + ['LB_clear', '_getcache', '_subcache'] if f not in funcs]
+        missing = [f for f in list(irsym.TARGETS) + ['LB_clear', '_getcache', '_subcache', 'VB_clear', '_generations_tuple'] if f not in funcs]
         if missing:
             out['harness_errors'].append('ir_lookup: functions not found in the IR (renamed?): %s' % missing)
             return out
@@ -270,6 +273,12 @@ def run_ir(tier, ctx):
             jobs.append(('_adapter_hook', 0, 2, pfx))
             if not quick:
                 jobs.append(('_adapter_hook', 1, 1, pfx))
+        # VerifyingBase: loops over the resolution order unrolled for lengths 0..2; a nested changed() is the havoc
+        jobs.append(('_verify', 0, 2, '-'))
+        jobs.append(('_verify', 1, 1, '-'))
+        jobs.append(('verify_changed', 0, 2, '-'))
+        for bits in range(1 << 6):
+            jobs.append(('verify_changed', 1, 1, format(bits, '06b')))
 
         def run_job(job):
             entry, exotic, mh, pfx = job
@@ -369,11 +378,12 @@ HARNESSES = [
     Harness('ir_lookup', kind='custom', impls=('c',), run=run_ir,
             tiers=dict(quick=dict(), thorough=dict()),
             encoded=['zope.interface._zope_interface_coptimizations:LookupBase'],
-            bounds='LLVM IR (clang-14 -O0 + mem2reg) of the current _zope_interface_coptimizations.c: _lookup, _lookup1, _lookupAll, _subscriptions '
+            bounds='LLVM IR (clang-14 -O0 + mem2reg) of the current _zope_interface_coptimizations.c: VerifyingBase _verify / verify_changed (loops over the '
+                   'resolution order unrolled for lengths 0..2, nested changed() as havoc), and _lookup, _lookup1, _lookupAll, _subscriptions '
                    '(every path, with always-Python callbacks <=2 havocs and, separately, with exotic callbacks - key __hash__/__eq__, __bool__ of '
                    'a str subclass - <=1 havoc) and _adapter_hook (quick: always-Python callbacks; thorough: both), helpers _getcache / _subcache / '
                    'LB_clear inlined; reference counts as z3 terms with an unknown number of external holders; no loops occur',
-            outside='VerifyingBase._verify/_generations_tuple (loops over registry.ro: not unrolled, covered by e_reent only); allocation failure '
+            outside='resolution orders longer than 2 in the VerifyingBase loops; the internal outcomes of a *nested* changed() other than completes / fails after releasing (its two possible effects on the caller\'s heap); allocation failure '
                     '(PyDict_New/PyTuple_New assumed non-NULL); destructors of unknown cached values; the CPython API implementation itself',
             oracle='monitors M1 (no use of an object whose reference count can be 0), M2 (frame reference balance at every return), M3 (no '
                    'value answered before a havoc-changed() stored into a dictionary reachable from self); findings are replayed on the real build',
